@@ -38,6 +38,9 @@ def plan(tier, seed):
     for feat in FOCUS:
         fam = 'probe:' + feat if feat in opened else 'main'
         cases += [{'family': fam, 'cseed': rnd.randrange(1 << 30), 'want': feat, 'n_exprs': 6} for _ in range(k)]
+    # rational literals (1/3, 5/2) through the generated code of a backend with typed literals
+    for b, kk in (('fortran', 6), ('default', 2)):
+        cases += [{'family': 'rational_literals', 'cseed': rnd.randrange(1 << 30), 'backend': b, 'n_exprs': 1} for _ in range(kk if tier == 'quick' else kk * 10)]
     return cases
 
 
@@ -304,6 +307,14 @@ def generated_path_neighbours(expr_str, values, notation, base):
 
 
 def run_case(case, ctx):
+    if case.get('family') == 'rational_literals':
+        # the generated-code path on a backend with typed literals (Fortran) and on the default backend: integer quotients written as
+        # exponent, factor, stand-alone term, inside a call and as summand of an exponent (machinery of C02)
+        from vp.props import c02
+        res = c02.run_rational_case(case, ctx)
+        res.setdefault('mech', {})['rational_literal_models'] = 1
+        res['mech']['generated_function_values'] = res['mech'].get('rational_number_values', 0)
+        return res
     rnd = random.Random(case['cseed'])
     mp = ctx['mp']
     mech = {}
